@@ -256,3 +256,68 @@ def quiet_atomica():
 
     at.logger.setLevel("ERROR")
     return at
+
+
+# ---------------------------------------------------------------- case enumeration / batch trace validation
+def enumerate_cases(modules, root, cfg_text, workers=None, timeout=900, generated=None):
+    """Run TLC on `root` (one of modules) with cfg_text, dump the state graph and return (TlcResult, obs cases)."""
+    gen = dict(generated or {})
+    gen["_enum.cfg"] = cfg_text
+    d = prepare_specdir(modules, gen)
+    dump = os.path.join(d, "dump")
+    r = run_tlc(d, root, cfg="_enum.cfg", workers=workers, timeout=timeout, dump=dump)
+    if r.violated:
+        out = r.out
+        shutil.rmtree(d, ignore_errors=True)
+        raise MachineryError("specification property %s refuted by TLC on %s (design/spec problem, not an implementation verdict):\n%s" % (r.violated, root, out[-3000:]))
+    tlc_ok(r, root)
+    cases = parse_obs(open(dump + ".dump").read())
+    shutil.rmtree(d, ignore_errors=True)
+    return r, cases
+
+
+_PAIR = re.compile(r'<<(-?\d+), "(\w+)"(?:, (-?\d+))?>>')
+
+
+def validate_batch(modules, root, records, timeout=1200, chunks=None, ndjson=False, cfg_text=None):
+    """Write records to a JSON trace and let TLC (module `root`, INVARIANT Verdict / POSTCONDITION Consumed) judge them.
+    Returns (list of (id, clause), states). The records are split into `chunks` files validated in parallel."""
+    from concurrent.futures import ThreadPoolExecutor
+
+    if not records:
+        return [], 0
+    chunks = chunks or min(NCPU, max(1, len(records) // 200))
+    parts = [records[k::chunks] for k in range(chunks)]
+
+    def one(part):
+        gen = {}
+        if cfg_text:
+            gen[root + ".cfg"] = cfg_text
+        d = prepare_specdir(modules, gen)
+        path = os.path.join(d, "trace.json")
+        with open(path, "w") as f:
+            if ndjson:
+                for rec in part:
+                    f.write(json.dumps(rec) + "\n")
+            else:
+                json.dump(part, f)
+        r = run_tlc(d, root, cfg=root + ".cfg", workers=1, env={"TRACE_FILE": path}, xss="512m", timeout=timeout)
+        bad = []
+        if "Verdict" in r.violated:
+            k = r.out.rfind("/\\ bad = ")
+            seg = r.out[k:]
+            end = seg.find("\n/\\", 3)
+            seg = seg if end < 0 else seg[:end]
+            bad = [(int(a), b) for a, b, _ in _PAIR.findall(seg)]
+            if not bad:
+                raise MachineryError("%s: Verdict violated but no failing clause parsed:\n%s" % (root, r.out[-2000:]))
+        else:
+            tlc_ok(r, root)
+            if r.postcondition_failed:
+                raise MachineryError("%s did not consume its trace:\n%s" % (root, r.out[-1000:]))
+        shutil.rmtree(d, ignore_errors=True)
+        return bad, r.distinct
+
+    with ThreadPoolExecutor(chunks) as ex:
+        res = list(ex.map(one, parts))
+    return [b for bad, _ in res for b in bad], sum(n for _, n in res)
